@@ -106,6 +106,29 @@ Theorem C20_json_error_bodies : forall msg,
 Proof. exact (fun msg => conj (auth_error_json_ok msg) (proxy_xhr_json_ok msg)). Qed.
 Print Assumptions C20_json_error_bodies.
 
+(* Every JSON body: the general recogniser (one RFC 8259 value, well-formed UTF-8, nothing after it)
+   accepts both error bodies for EVERY message. *)
+Theorem C20_json_documents : forall msg,
+  json_doc_ok (auth_error_json msg) = true /\ json_doc_ok (proxy_xhr_json msg) = true.
+Proof. exact (fun msg => conj (json_doc_ok_auth msg) (json_doc_ok_proxy msg)). Qed.
+Print Assumptions C20_json_documents.
+
+(* The note net/http writes with every redirect of sso: whatever the URL, it is one anchor with one
+   href attribute and ends in the data state -- request text in a redirect target adds nothing. *)
+Theorem C20_redirect_note_inert : forall text, ~ In 60 text ->
+  forall u1 u2, skeleton (redirect_note u1 text) = skeleton (redirect_note u2 text) /\
+                final_state (redirect_note u1 text) = SData.
+Proof. exact redirect_note_inert. Qed.
+Print Assumptions C20_redirect_note_inert.
+
+Theorem C20_redirect_monitor_accepts_model :
+  (forall svc site text url url0 segs, ~ In 60 text ->
+     rebuild (redirect_note url text) segs = redirect_note url0 text ->
+     judge (CNote svc site text ct_html (redirect_note url text) segs) = 0) /\
+  (forall svc site text ct, judge (CNote svc site text ct [] []) = 0).
+Proof. exact (conj judge_note_model judge_note_empty). Qed.
+Print Assumptions C20_redirect_monitor_accepts_model.
+
 (* The correspondence monitors accept the model's own prediction for every input; a further
    (Accept, X-Requested-With) combination is accepted when the handler serves the same page as
    HTML or the model's JSON body as JSON; and a body served under an HTML type is accepted only
